@@ -60,6 +60,11 @@ MUTATORS = {
         ("drop info=info", r"quimb/tensor/tn1d/core\.py$", r"^(\s+.*)\binfo=info, (.*)$", r"\1\2"),
         ("drop record store", r"quimb/tensor/tn1d/core\.py$", r"^(\s+)info\[\"cur_orthog\"\] = .*$", r"\1pass"),
         ("drop fork", r"quimb/tensor/tn1d/core\.py$", r"^(\s+)info = info\.copy\(\)\s*$", r"\1pass"),
+        ("swap: left records right site", r"quimb/tensor/tn1d/core\.py$", r"^(\s+)info\[\"cur_orthog\"\] = \(i, i\)\s*$", r'\1info["cur_orthog"] = (j, j)'),
+        ("swap: factors written to the other site", r"quimb/tensor/tn1d/core\.py$", r"^(\s+)Ti\.modify\(data=sTi\.data\)\s*$", r"\1Tj.modify(data=sTi.data)"),
+        ("auto swap: absorb on the wrong side", r"quimb/tensor/tn1d/core\.py$", r"^(\s+)absorb = \"left\"\s*$", r'\1absorb = "right"'),
+        ("auto swap: record one site early", r"quimb/tensor/tn1d/core\.py$", r"^(\s+)info\[\"cur_orthog\"\] = \(i \+ 1, i \+ 1\)\s*$", r'\1info["cur_orthog"] = (i, i)'),
+        ("submpo: ends swapped", r"quimb/tensor/tn1d/core\.py$", r"^(\s+)info\[\"cur_orthog\"\] = \(sf, sf\)\s*$", r'\1info["cur_orthog"] = (si, si)'),
     ],
     "C09": [
         ("drop cap", r"quimb/tensor/tn1d/(compress|core)\.py$", r"^(\s+)max_bond=max_bond,\s*$", None),
